@@ -43,6 +43,8 @@ def base_pool(it):
         ("b", lambda: mk(it, ("x y", {}))),
         ("c", lambda: mk(it, ("Ｅ!", {"bg": 44}))),
         ("e", lambda: mk(it, ("p", {"fg": 32}), ("", {}), ("q\nr", {"fg": 32, "underline": True}))),
+        # a text that also occurs inside its own escape codes (ESC[31m ... ): code that finds a piece by searching the rendering
+        ("d", lambda: mk(it, ("1m", {"fg": 31}), ("31", {"bold": True}), ("1m", {"fg": 31}))),
     ]
 
 
@@ -67,6 +69,11 @@ def operations(it):
         ("x.splice(y, 0, 1)", 2, lambda x, y: _m(it, x, "splice", y, 0, 1)),
         ("x + 'Ｈｉ'", 1, lambda x: _m(it, x, "__add__", "\uff28\uff49")),
         ("x.append('z')", 1, lambda x: _m(it, x, "append", "z")),
+        ("x.setslice_with_length(1, 2, 'long', 40)", 1, lambda x: _m(it, x, "setslice_with_length", 1, 2, "long", 40)),
+        ("x.setslice_with_length(len(x) + 1, len(x) + 2, 'k=1', 40)", 1, lambda x: _m(it, x, "setslice_with_length", len(it.folder.obj_attr(x, "s")) + 1, len(it.folder.obj_attr(x, "s")) + 2, "k=1", 40)),
+        ("x.copy()", 1, lambda x: _m(it, x, "copy")),
+        ("x.splitlines(True)", 1, lambda x: _m(it, x, "splitlines", True)),
+        ("x[1:]", 1, lambda x: _m(it, x, "__getitem__", slice(1, None))),
         ("x.join([y, x])", 2, lambda x, y: _m(it, x, "join", [y, x])),
         ("x.split(' ')", 1, lambda x: _m(it, x, "split", " ")),
         ("x.splitlines()", 1, lambda x: _m(it, x, "splitlines")),
@@ -207,6 +214,16 @@ def run(src, rep, counts):
         v = mk(it, ("ab", {"fg": 31}), ("cd", {"bold": True}))
         return v, it.folder.obj_attr(v.fields["chunks"][0], "atts")
 
+    def set_attr(obj, name, value):
+        import ast as _ast
+        from ..absint import FoldedRaise
+        tgt = _ast.parse("o.%s = v" % name).body[0].targets[0]
+        try:
+            it.folder.assign(tgt, value, {"o": obj})
+        except FoldedRaise as e:
+            return ("raise", e.name)
+        return ("ok", None)
+
     def dict_call(atts, name, *args):
         # a dict subclass inherits every mutator it does not override
         if it.folder._find_method(atts, name) is not None:
@@ -224,7 +241,9 @@ def run(src, rep, counts):
             ("f.chunks[0].atts.clear()", lambda v, atts: dict_call(atts, "clear")),
             ("f.chunks[0].atts.setdefault('bg', 44)", lambda v, atts: dict_call(atts, "setdefault", "bg", 44)),
             ("del f.chunks[0].atts['fg']", lambda v, atts: dict_call(atts, "__delitem__", "fg")),
-            ("f.chunks[0].atts.popitem()", lambda v, atts: dict_call(atts, "popitem"))):
+            ("f.chunks[0].atts.popitem()", lambda v, atts: dict_call(atts, "popitem")),
+            ("f.chunks[0].atts = {'fg': 34}", lambda v, atts: set_attr(v.fields["chunks"][0], "atts", {"fg": 34})),
+            ("f.chunks[0].s = 'zz'", lambda v, atts: set_attr(v.fields["chunks"][0], "s", "zz"))):
         v, atts = fresh()
         before = observe(it, v)
         try:
